@@ -311,7 +311,7 @@ func (v *UnixVolume) WriteBlock(ctx context.Context, loc string, rdr io.Reader) 
 		v.os.Remove(tmpfile.Name())
 		return err
 	}
-	if err := v.os.Rename(tmpfile.Name(), bpath); err != nil {
+	if err := v.renameOver(tmpfile.Name(), bpath); err != nil {
 		err = fmt.Errorf("error renaming %s to %s: %s", tmpfile.Name(), bpath, err)
 		v.os.Remove(tmpfile.Name())
 		return err
@@ -511,7 +511,7 @@ func (v *UnixVolume) Untrash(loc string) (err error) {
 			if err = os.Chtimes(v.blockPath(f.Name()), ts, ts); err != nil {
 				continue
 			}
-			err = v.os.Rename(v.blockPath(f.Name()), v.blockPath(loc))
+			err = v.renameOver(v.blockPath(f.Name()), v.blockPath(loc))
 			if err == nil {
 				break
 			}
@@ -626,6 +626,22 @@ func (v *UnixVolume) unlock() {
 }
 
 // lockfile and unlockfile use flock(2) to manage kernel file locks.
+// renameOver renames src to dst. If dst already exists, its flock is
+// held while it is replaced. Trash() holds that lock from the moment
+// it reads the block's timestamp until it has renamed the block, so
+// it can never move a newly written or untrashed copy away on the
+// strength of the timestamp of the copy that was there before.
+func (v *UnixVolume) renameOver(src, dst string) error {
+	if f, err := v.os.OpenFile(dst, os.O_RDWR|os.O_APPEND, 0644); err == nil {
+		defer f.Close()
+		if err := v.lockfile(f); err != nil {
+			return err
+		}
+		defer v.unlockfile(f)
+	}
+	return v.os.Rename(src, dst)
+}
+
 func (v *UnixVolume) lockfile(f *os.File) error {
 	v.os.stats.TickOps("flock")
 	v.os.stats.Tick(&v.os.stats.FlockOps)
